@@ -1038,6 +1038,7 @@ package url
 //@   noreads url.parserOptions.reportValidationErrors, url.parserOptions.failOnValidationError, url.Url.validationErrors except (*parser).handleError, (*parser).handleErrorWithDescription, (*parser).handleWrappedError   [C15 diagnostics-options-read-only-by-the-error-handlers]
 //@   requires wf(u)
 //@   ensures result1 == nil ==> (result0 != nil && fresh(result0) && wf(result0) && allFresh(result0))   [C02,C13,C14]
+//@   ensures result1 == nil ==> result0.parser == u.parser   [C06,C16 result-carries-the-base-parser]
 //@   ensures (result1 == nil && shapeP(u)) ==> shapeP(result0)   [C04 parse-establishes-shape]
 //@   ensures result1 == nil ==> result0.inputUrl == old(cleanedP(ref))   [C01,C06 input-cleaning]
 //@   ensures (result1 == nil && hasSch(result0)) ==> result0.scheme == specLowerRunes(inC(result0), schEnd(result0))   [C01 scheme-value]
@@ -1072,6 +1073,7 @@ package url
 //@   noreads url.parserOptions.reportValidationErrors, url.parserOptions.failOnValidationError, url.Url.validationErrors except (*parser).handleError, (*parser).handleErrorWithDescription, (*parser).handleWrappedError   [C15 diagnostics-options-read-only-by-the-error-handlers]
 //@   requires okOpts(p)
 //@   ensures result1 == nil ==> (result0 != nil && fresh(result0) && wf(result0) && allFresh(result0))   [C02,C13,C14]
+//@   ensures result1 == nil ==> result0.parser == p   [C06,C16 base-and-reference-parsed-by-the-same-parser]
 //@   ensures result1 == nil ==> shapeP(result0)   [C04 parse-establishes-shape]
 //@ func (*parser).NewUrl
 //@   requires p != nil
